@@ -2,7 +2,7 @@
    case   = VTup [src; VList stages; action]
    src    = VTup [VInt 0; VList xs; VInt n] (parallelize xs n)  |  VTup [VInt 1; VList parts; VInt 0] (explicit partitions)
    stage  = VTup [VInt kind; VInt code; VInt flag]      action = VTup [VInt a; VInt a1; VInt a2; VInt a3]
-   result = VTup [VInt (calls logged while defining); VList log; action result; partitioning]
+   result = VTup [VList (calls logged after each definition step); VList log; action result; partitioning]
    The function library below is the Gallina twin of FN/PRED/GFN/MFN/HFN/OP in py/c06.py. *)
 From Coq Require Import ZArith List Bool String.
 Require Import PV.Base.Val PV.Model.Lazy.
@@ -126,7 +126,7 @@ Definition run (c : val) : val :=
       match dec_src src, dec_stages sts, dec_query act with
       | Some parts, Some stages, Some q =>
           let '(ndef, (log, res)) := run_program stages q parts in
-          VTup [VInt (Z.of_nat ndef); VList (map enc_event log); enc_result res; vparts (map (map VInt) parts)]
+          VTup [VList (map (fun k => VInt (Z.of_nat k)) ndef); VList (map enc_event log); enc_result res; vparts (map (map VInt) parts)]
       | _, _, _ => VBad
       end
   | _ => VBad
